@@ -243,7 +243,7 @@ def run(prop, tier):
         o = observed[0]
         samples.append({"abstract": sel[o["i"]], "concretisation": o.get("conc"), "observed_result": o["hist"][-1]["result"]})
     extra_notes = []
-    if prop in ("C01", "C03", "C06"):
+    if prop in ("C01", "C02", "C03", "C06"):
         # the same clauses on TIMED executions (slow authentication, slow routing stages, keep-alives in between): ConnTimed schedules
         tcfg = "MC_ConnTimedQuick.cfg" if tier == "quick" else "MC_ConnTimedFull.cfg"
         tm = vlib.run_tlc("MC_ConnTimed", tcfg, wd, workers=4, timeout=1800)
